@@ -87,6 +87,13 @@ Theorem C19_minlattice_righthanded_partial :
     0 < det d (mm d A (orient d A P)).
 Proof. exact orient_righthanded. Qed.
 
+(* the certificate evaluated on the exact metric of every returned cell: true => sorted by length and no pair reduction
+   a_j - u a_i (any integer u) shortens a vector, i.e. minlattice() ran to completion *)
+Theorem C19_reduced_certificate_sound :
+  forall d Gm, reducedb d Gm = true ->
+    forall i j, (i < j)%nat -> (j < d)%nat -> Gm i i <= Gm j j /\ forall u, Gm j j <= pair_len Gm i j u.
+Proof. exact reducedb_sound. Qed.
+
 Goal True. idtac "ASSUMPTIONS-OF C19_summary_checker_sound". Abort.
 Print Assumptions C19_summary_checker_sound.
 Goal True. idtac "ASSUMPTIONS-OF C19_supercell_volume_partial". Abort.
@@ -113,3 +120,5 @@ Goal True. idtac "ASSUMPTIONS-OF C19_minlattice_shear_partial". Abort.
 Print Assumptions C19_minlattice_shear_partial.
 Goal True. idtac "ASSUMPTIONS-OF C19_minlattice_righthanded_partial". Abort.
 Print Assumptions C19_minlattice_righthanded_partial.
+Goal True. idtac "ASSUMPTIONS-OF C19_reduced_certificate_sound". Abort.
+Print Assumptions C19_reduced_certificate_sound.
